@@ -24,6 +24,8 @@ pub struct PipeState {
     /// bytes the library may still write; `None` = unlimited
     pub credit: Option<usize>,
     pub wr_err: Option<io::ErrorKind>,
+    /// the write error is transient: the write that reports it clears it
+    pub wr_err_once: bool,
     pub write_waker: Option<Waker>,
     pub read_dropped: bool,
     pub write_dropped: bool,
@@ -99,6 +101,10 @@ impl AsyncWrite for W {
     fn poll_write(self: Pin<&mut Self>, cx: &mut Context<'_>, buf: &[u8]) -> Poll<io::Result<usize>> {
         let mut s = self.0 .0.lock().unwrap();
         if let Some(k) = s.wr_err {
+            if s.wr_err_once {
+                s.wr_err = None;
+                s.wr_err_once = false;
+            }
             return Poll::Ready(Err(io::Error::new(k, "scripted write error")));
         }
         let n = match s.credit {
@@ -183,6 +189,12 @@ impl Pipe {
     pub fn wrerr(&self, k: io::ErrorKind) {
         self.fire_write(|s| s.wr_err = Some(k));
     }
+    pub fn wrerr_once(&self, k: io::ErrorKind) {
+        self.fire_write(|s| {
+            s.wr_err = Some(k);
+            s.wr_err_once = true;
+        });
+    }
     /// bytes written since the last call
     pub fn take_wire(&self) -> Vec<u8> {
         let mut s = self.0.lock().unwrap();
@@ -198,6 +210,10 @@ pub fn err_kind(s: &str) -> io::ErrorKind {
         "ConnectionReset" => io::ErrorKind::ConnectionReset,
         "ConnectionAborted" => io::ErrorKind::ConnectionAborted,
         "TimedOut" => io::ErrorKind::TimedOut,
+        "Interrupted" => io::ErrorKind::Interrupted,
+        "WouldBlock" => io::ErrorKind::WouldBlock,
+        "WriteZero" => io::ErrorKind::WriteZero,
+        "UnexpectedEof" => io::ErrorKind::UnexpectedEof,
         _ => io::ErrorKind::Other,
     }
 }
